@@ -8,6 +8,12 @@
         one real round whose batch read is answered stale: override = id;mod;hash;val;size (an
         older version) or id;- (not returned); policies and tokens are both guarded (ensureRemoteConsistent)
    nbatch <rows id;name …> <upserts id;name …>           one upsert batch against the unique name index
+   xrnd <kind> <last> <remoteIndex> <cancelAt|-> <locals> <remotes>
+        one real round under faults (CV.Repl.roundRun): kind policy|role|token (ACL items), cfg (config
+        items; applies rejected by the modelled fragment of graph validation, cfgRej), fed (federation
+        states, item dc;mod;val - for a local item mod is its PrimaryModifyIndex; final prints it);
+        cancelAt = the poll of ctx.Done() (0 = right after the fetch) that finds the context cancelled.
+        w= lists every apply ISSUED (a rejected one is a Raft entry too); ret = exit | error | index
 
    ACL item:    id;mod;hash;val;size      config item: kind;name;mod;hash;val
    A round answers  ret=<returned index> w=<Raft applies in order> final=<id;val …>  where an apply
@@ -43,6 +49,16 @@ def parseOverride (tok : String) : Option (Bytes × Option (Item Bytes Bytes)) :
   | [i, _, _, _, _] => do let id ← decB i; let it ← parseAclItem tok; pure (id, some it)
   | _ => none
 
+def parseFedItem (tok : String) : Option (Item Bytes Unit) :=
+  match tok.splitOn ";" with
+  | [i, m, v] => do
+      let id ← decB i; let mod ← m.toNat?; let val ← v.toNat?
+      pure ⟨id, mod, (), val, 1⟩
+  | _ => none
+
+def parseCancel (tok : String) : Option (Option Nat) :=
+  if tok == "-" then some none else tok.toNat?.map some
+
 def parseNRow (tok : String) : Option NRow :=
   match tok.splitOn ";" with
   | [i, n] => do
@@ -61,6 +77,19 @@ def cfgId (k : CKey) : Bytes := k.1 ++ [47] ++ k.2
 def opStr {κ η : Type} (idOf : κ → Bytes) : Op κ η → String
   | .del ks => "D~" ++ "+".intercalate (ks.map fun k => encB (idOf k))
   | .ups xs => "U~" ++ "+".intercalate (xs.map fun x => encB (idOf x.id))
+
+def retStr : Ret → String
+  | .exit => "exit"
+  | .error => "error"
+  | .idx n => toString n
+
+def runStr {κ η : Type} [DecidableEq κ] (X : RndX κ η) (F : Fault κ η) (idOf : κ → Bytes) (withMod : Bool)
+    (last ridx : Nat) (l r : List (Item κ η)) : String :=
+  let st := roundRun X F last ridx l r
+  let rows : List (Item Bytes Unit) := st.store.map fun x => ⟨idOf x.id, x.mod, (), x.val, 1⟩
+  let fin := encList ((sortBy bytesLt rows).map fun x =>
+    encB x.id ++ ";" ++ toString x.val ++ (if withMod then ";" ++ toString x.mod else ""))
+  s!"ret={retStr (runRet ridx st)} w={encList (st.tried.map (opStr idOf))} final={fin}"
 
 def roundStr {κ η : Type} [DecidableEq κ] (R : Rnd κ η) (idOf : κ → Bytes) (last ridx : Nat)
     (l r : List (Item κ η)) : String :=
@@ -111,6 +140,23 @@ def step (_ : Unit) (toks : List String) : Unit × String :=
         | none => "error"
       ((), s!"ret={ret} w={encList (ops.map (opStr id))} final={fin}")
     | _, _, _, _, _ => ((), "bad-op")
+  | ["xrnd", kind, last, ridx, cancel, ls, rs] =>
+    match last.toNat?, ridx.toNat?, parseCancel cancel with
+    | some last, some ridx, some c =>
+      if kind == "cfg" then
+        match (decList ls).mapM parseCfgItem, (decList rs).mapM parseCfgItem with
+        | some l, some r => ((), runStr cfgX { rej := cfgRej, cancelAt := c } cfgId false last ridx l r)
+        | _, _ => ((), "bad-op")
+      else if kind == "fed" then
+        match (decList ls).mapM parseFedItem, (decList rs).mapM parseFedItem with
+        | some l, some r => ((), runStr fedX { rej := fun _ _ => false, cancelAt := c } id true last ridx l r)
+        | _, _ => ((), "bad-op")
+      else if kind == "policy" || kind == "role" || kind == "token" then
+        match (decList ls).mapM parseAclItem, (decList rs).mapM parseAclItem with
+        | some l, some r => ((), runStr aclX { rej := fun _ _ => false, cancelAt := c } id false last ridx l r)
+        | _, _ => ((), "bad-op")
+      else ((), "bad-op")
+    | _, _, _ => ((), "bad-op")
   | ["nbatch", rows, ups] =>
     match (decList rows).mapM parseNRow, (decList ups).mapM parseNRow with
     | some s, some xs =>
